@@ -154,7 +154,7 @@ def finish_simple(prop, tier, seed, jobs, viols, t0, level, extra_cov=None):
             by_kind[k] = by_kind.get(k, 0) + v
     import checks
     missing = [k for k in checks.REQUIRED_EVENTS.get(prop, []) if by_kind.get(k, 0) == 0]
-    if missing and not os.environ.get('VERIF_ALLOW_VACUOUS'):
+    if missing and not viols and not os.environ.get('VERIF_ALLOW_VACUOUS'):
         raise ToolError('vacuous run of %s: no event of kind(s) %s was exercised on the implementation' % (prop, missing))
     samples = []
     for j in jobs[:3]:
@@ -404,6 +404,14 @@ def c14(tier, seed, replay):
                 c += ['--all-words']
             import subprocess
             p = subprocess.run(c, stdout=subprocess.PIPE, stderr=subprocess.PIPE, text=True)
+            if p.returncode < 0:
+                # the process died while driving an iterator (abort on a null/misaligned pointer check, SIGSEGV): the iterator
+                # walked off its list - a violation of C14 (and of C03), not a tool error
+                job['crash'] = dict(cmd='iters', kind=job['kind'], instance=job['inst']['name'], cfg=job['inst']['cfg'], op={'op': 'process-crash'},
+                                    crash_signal=-p.returncode, stderr=p.stderr[-600:], record={'ret': 'iterator battery killed the process'})
+                job['exec'] = dict(rc=p.returncode, stats={})
+                job['shards'] = []
+                return job
             if p.returncode != 0:
                 raise ToolError('iters harness failed: ' + p.stderr[-1500:])
             job['exec'] = dict(rc=0, stats=[json.loads(l) for l in p.stderr.splitlines() if l.startswith('{')][-1])
@@ -435,7 +443,7 @@ def c14(tier, seed, replay):
             return out
         tasks = [(j, s) for j in jobs for s in j['shards']]
         res = vlib.pool_map(val, tasks, max(2, vlib.NCPU - 2))
-        viols = [d for r in res for d in r]
+        viols = [j['crash'] for j in jobs if j.get('crash')] + [d for r in res for d in r]
         return finish_simple(prop, tier, seed, jobs, viols, t0, 'model_checking',
                              extra_cov=dict(cursor_machine=dict(module='MCIter', max_len=3 if tier == 'quick' else 4, wall_s=round(wall, 1),
                                                                 note='every list of length <= max_len x both kinds x every word over {next,next_back} of length <= len+2')))
